@@ -710,6 +710,9 @@ class Builtins:
         it.assume(z3.ForAll([i, j], z3.Implies(z3.And(i >= 0, i < j, j < ln), ks[i] != ks[j])))
         it.assume(z3.ForAll([k], z3.Implies(z3.Select(d.ty.dom(d.term), k), z3.Contains(ks, z3.Unit(k)))))
         it.assume(ln == it.dict_len(d))
+        # the same coverage fact with an explicit position function (no appeal to seq.contains)
+        pos = z3.Function(f"keypos!{next(it.counter)}", d.ty.k.sort(), z3.IntSort())
+        it.assume(z3.ForAll([k], z3.Implies(z3.Select(d.ty.dom(d.term), k), z3.And(pos(k) >= 0, pos(k) < ln, ks[pos(k)] == k))))
         return SV(TSeq(d.ty.k), ks)
 
     # ------------------------------------------------------------------ comprehensions
